@@ -3,7 +3,7 @@
 # worktrees (quick tier), <lanes> at a time; one line per change in /var/tmp/sweep_wt.txt
 lanes=${1:-3}
 out=/var/tmp/sweep_wt.txt; : > $out
-ls -d /verif/seeded/*/ | xargs -n1 basename | xargs -P "$lanes" -I{} sh -c '
+ls -d /verif/seeded/C??-?/ | xargs -n1 basename | xargs -P "$lanes" -I{} sh -c '
   m={}; id=${m%-*}; log=/var/tmp/sweep_wt_$m.out
   /verif/tools/trymutant_wt.sh $id /verif/seeded/$m/patch.diff > $log 2>&1
   if grep -q "patch does not apply" $log; then r=NOAPPLY; elif grep -q "^VIOLATION property=$id " $log; then r=DETECTED; else r="MISSED($(grep "check exit code" $log))"; fi
